@@ -721,3 +721,135 @@ func (p *prover) intFieldLowerFacts() map[string]int64 {
 	}
 	return p.intLower
 }
+
+// ---- success-conditional summaries: err == nil after a module call implies lower bounds on the lengths of its arguments
+
+type succFact struct {
+	idx int   // parameter index
+	k   int64 // len(param) >= k at every return that may carry a nil error
+}
+
+var succCache = map[*ssa.Function][]succFact{}
+var succBusy = map[*ssa.Function]bool{}
+
+// succSummary: for a callee whose last result is an error, the facts len(param_i) >= k that hold at every return whose
+// error result is the nil constant (returns of other error values are treated as possibly-nil and must satisfy the fact
+// too, unless the value is built by an error constructor)
+func (p *prover) succSummary(callee *ssa.Function) []succFact {
+	if f, ok := succCache[callee]; ok {
+		return f
+	}
+	if succBusy[callee] || p.nest >= 6 {
+		return nil
+	}
+	nres := callee.Signature.Results().Len()
+	if nres == 0 || !isErrorType(callee.Signature.Results().At(nres-1).Type()) {
+		succCache[callee] = nil
+		return nil
+	}
+	rets := returnedValues(callee, nres-1)
+	var succ []retVal
+	for _, rv := range rets {
+		if certainlyNonNilError(rv.Val) {
+			continue
+		}
+		succ = append(succ, rv)
+	}
+	if len(succ) == 0 || len(succ) > 8 {
+		succCache[callee] = nil
+		return nil
+	}
+	succBusy[callee] = true
+	defer delete(succBusy, callee)
+	savedDepth := p.depth
+	p.depth = 0
+	p.nest++
+	defer func() { p.depth = savedDepth; p.nest-- }()
+	var out []succFact
+	for i, prm := range callee.Params {
+		if !isSeqType(prm.Type()) {
+			continue
+		}
+		// candidate bounds: constants the length of this parameter is compared with
+		cands := map[int64]bool{}
+		eachInstr(callee, func(in ssa.Instruction) {
+			bo, ok := in.(*ssa.BinOp)
+			if !ok {
+				return
+			}
+			for _, pair := range [][2]ssa.Value{{bo.X, bo.Y}, {bo.Y, bo.X}} {
+				cl, ok := pair[0].(*ssa.Call)
+				if !ok || !isBuiltin(cl, "len") || lenKey(cl.Call.Args[0]) != lenKey(prm) {
+					continue
+				}
+				if k, ok := constInt(pair[1]); ok && k > 0 && k < 1<<20 {
+					cands[k], cands[k+1] = true, true
+				}
+			}
+		})
+		var ks []int64
+		for k := range cands {
+			ks = append(ks, k)
+		}
+		sort.Slice(ks, func(a, b int) bool { return ks[a] > ks[b] })
+		for _, k := range ks {
+			all := true
+			for _, rv := range succ {
+				// k <= len(prm) at the return
+				if !p.prove(callee, rv.At, zeroT(), term{v: prm, isLn: true}, -k, nil) {
+					all = false
+					break
+				}
+			}
+			if all {
+				out = append(out, succFact{i, k})
+				break
+			}
+		}
+	}
+	succCache[callee] = out
+	return out
+}
+
+// succFacts: cond tests an error against nil; on the nil side the success summary of the call that produced it applies
+func (p *prover) succFacts(s *factSet, cond ssa.Value, truth bool, seen map[term]bool) {
+	bo, ok := cond.(*ssa.BinOp)
+	if !ok || (bo.Op != token.EQL && bo.Op != token.NEQ) {
+		return
+	}
+	var e ssa.Value
+	if k, ok := bo.Y.(*ssa.Const); ok && k.IsNil() {
+		e = bo.X
+	} else if k, ok := bo.X.(*ssa.Const); ok && k.IsNil() {
+		e = bo.Y
+	}
+	if e == nil || !isErrorType(e.Type()) {
+		return
+	}
+	isNil := (bo.Op == token.EQL) == truth
+	if !isNil {
+		return
+	}
+	var cl *ssa.Call
+	switch x := e.(type) {
+	case *ssa.Call:
+		cl = x
+	case *ssa.Extract:
+		cl, _ = x.Tuple.(*ssa.Call)
+	}
+	if cl == nil {
+		return
+	}
+	callee := cl.Common().StaticCallee()
+	if callee == nil || callee.Blocks == nil || !strings.HasPrefix(fnPkgPath(callee), modPath) {
+		return
+	}
+	for _, sf := range p.succSummary(callee) {
+		if sf.idx >= len(cl.Common().Args) {
+			continue
+		}
+		lt := lenT(cl.Common().Args[sf.idx])
+		s.le(zeroT(), lt, -sf.k)
+		p.defs(s, lt, seen, 1)
+	}
+}
